@@ -229,6 +229,8 @@ def box_from_source(module, fn):
     pres = [l.strip()[4:].strip() for l in doc.splitlines() if l.strip().startswith("pre:")]
     box = {}
     for p in pres:
+        if p.startswith("not ") or p.startswith("not("):
+            continue
         for lo, name, op, hi in _RNG1.findall(p):
             hi = int(hi) - (1 if op == "<" else 0)
             if name in box:
